@@ -19,5 +19,15 @@ theorem C03_code_dgr (x y : MultiOp R) :
   simp only [multi_dgr_eq, multi_mul_assign_eq]
   exact ⟨Qvnt.MultiOp.dgr_dgr (fun r => neg_neg r) x, Qvnt.MultiOp.dgr_mul x y⟩
 
+/-- **the translated dagger is the inverse**: for every operator built by a construction program over 64-bit masks with
+unit-circle phases, applying the operator and then what the translated `dgr` returns (and the other way round) gives the
+state back; the same for the product built with the translated `*=` of the two -/
+theorem C03_code_inverse (hs : 2 * (Consts.invSqrt2 : R) * Consts.invSqrt2 = 1) (hh : 2 * (Consts.half : R) = 1)
+    (phaseOf : QftPhases R) (hp : ∀ j, Cx.IsUnitPhase (phaseOf j)) (e : OpExpr R) (hw : e.WordOK) (hu : e.UnitPhases)
+    (o : MultiOp R) (hb : OpExpr.build phaseOf e = .ok o) (ψ : State R) :
+    MultiOp.apply (multi_dgr o) (MultiOp.apply o ψ) = ψ ∧ MultiOp.apply o (MultiOp.apply (multi_dgr o) ψ) = ψ := by
+  rw [multi_dgr_eq]
+  exact C03_inverse hs hh phaseOf hp e hw hu o hb ψ
+
 end
 end Qvnt
